@@ -25,4 +25,146 @@ def Mem.read (m : Mem) (a n : Nat) : List Nat := (List.range n).map (fun i => m 
 /-- `memcpy(dst, src, n)` -/
 def Mem.copy (m : Mem) (dst src n : Nat) : Mem := m.write dst (m.read src n)
 
+/-! ## decoded values -/
+
+mutual
+/-- the value a byte range holds at a type: leaves are their bytes, an enum is
+    its tag byte and the fields of the variant the tag selects (padding and the
+    storage of other variants are not part of the value) -/
+inductive V where
+  | unit
+  | leaf (k : LeafKind) (bs : List Nat)
+  | rec_ (fs : Vs)
+  | enm (tag : Nat) (fs : Vs)
+inductive Vs where
+  | nil
+  | cons (v : V) (vs : Vs)
+end
+
+mutual
+/-- decode the value of type `t` stored at address `a` (`none`: uninhabited
+    type or a tag that selects no variant) -/
+def decode (m : Mem) : Ty → Nat → Option V
+  | .unit, _ => some .unit
+  | .never, _ => none
+  | .leaf k s _, a => some (.leaf k (m.read a s))
+  | .record fs, a =>
+    match decodeFields m fs LayoutBuilder.new a with
+    | none => none
+    | some vs => some (.rec_ vs)
+  | .enum vs, a =>
+    match decodeVariant m vs (m a) a with
+    | none => none
+    | some fs => some (.enm (m a) fs)
+def decodeFields (m : Mem) : Tys → LayoutBuilder → Nat → Option Vs
+  | .nil, _, _ => some .nil
+  | .cons t ts, b, a =>
+    match layoutOf t with
+    | none => none
+    | some l =>
+      match decode m t (a + (b.add l).2), decodeFields m ts (b.add l).1 a with
+      | some v, some vs => some (.cons v vs)
+      | _, _ => none
+def decodeVariant (m : Mem) : Vars → Nat → Nat → Option Vs
+  | .nil, _, _ => none
+  | .cons v _, 0, a => decodeFields m v variantStart a
+  | .cons _ vs, k + 1, a => decodeVariant m vs k a
+end
+
+/-! ## the generated clone function, executed -/
+
+mutual
+/-- `call_clone_function(from = src, to = dst, ty)` followed by running the
+    callee: a type that needs no clone is `memcpy`ed whole; String / List /
+    registered `Clone` leaves go through the runtime's clone function, which is
+    modelled as producing a handle with the same bytes (`Arc` clone: the SAME
+    list storage, the same immutable string); records and enums run
+    `generate_clone_body_record` / `_enum`. -/
+def cloneTy : Ty → Nat → Nat → Mem → Mem
+  | .unit, _, _, m => m
+  | .never, _, _, m => m
+  | .leaf _ s _, src, dst, m => m.copy dst src s
+  | .record fs, src, dst, m =>
+    if needsClone (.record fs) then cloneFields fs LayoutBuilder.new src dst m
+    else match layoutOf (.record fs) with
+      | none => m
+      | some l => m.copy dst src l.get_size
+  | .enum vs, src, dst, m =>
+    if needsClone (.enum vs) then
+      cloneVariant vs (m src) src dst (m.write dst [m src])
+    else match layoutOf (.enum vs) with
+      | none => m
+      | some l => m.copy dst src l.get_size
+/-- `generate_clone_body_record`'s loop / the per-variant loop -/
+def cloneFields : Tys → LayoutBuilder → Nat → Nat → Mem → Mem
+  | .nil, _, _, _, m => m
+  | .cons t ts, b, src, dst, m =>
+    match layoutOf t with
+    | none => cloneFields ts b src dst m
+    | some l =>
+      cloneFields ts (b.add l).1 src dst (cloneTy t (src + (b.add l).2) (dst + (b.add l).2) m)
+/-- the `Switch` of `generate_clone_body_enum`: branch `k` for tag `k`, the
+    LAST variant is the default; an uninhabited variant's block just returns -/
+def cloneVariant : Vars → Nat → Nat → Nat → Mem → Mem
+  | .nil, _, _, _, m => m
+  | .cons v .nil, _, src, dst, m =>
+    match collectLayouts v with
+    | none => m
+    | some _ => cloneFields v variantStart src dst m
+  | .cons v (.cons v' vs), 0, src, dst, m =>
+    match collectLayouts v with
+    | none => m
+    | some _ => cloneFields v variantStart src dst m
+  | .cons _ (.cons v' vs), k + 1, src, dst, m => cloneVariant (.cons v' vs) k src dst m
+end
+
+/-! ## the generated eq function, executed -/
+
+mutual
+/-- `generate_eq_body` run on `left = a`, `right = b`. `le` is the comparison
+    of a leaf's bytes (`IntCmp::Eq` on the loaded value, `FloatCmp::Eq`, the
+    runtime's eq function). -/
+def eqTy (le : LeafKind → List Nat → List Nat → Bool) (m : Mem) : Ty → Nat → Nat → Bool
+  | .unit, _, _ => true
+  | .never, _, _ => true
+  | .leaf k s _, a, b => le k (m.read a s) (m.read b s)
+  | .record fs, a, b => eqFields le m fs LayoutBuilder.new a b
+  | .enum vs, a, b => if m a = m b then eqVariant le m vs (m a) a b else false
+/-- the field chain of `generate_eq_body_record` / of one variant: an
+    uninhabited field is skipped, a zero-sized one compares equal
+    (`call_eq_by_ptr`), the others are compared by their own function -/
+def eqFields (le : LeafKind → List Nat → List Nat → Bool) (m : Mem) : Tys → LayoutBuilder → Nat → Nat → Bool
+  | .nil, _, _, _ => true
+  | .cons t ts, bd, a, b =>
+    match layoutOf t with
+    | none => eqFields le m ts bd a b
+    | some l =>
+      (if l.get_size = 0 then true else eqTy le m t (a + (bd.add l).2) (b + (bd.add l).2))
+        && eqFields le m ts (bd.add l).1 a b
+/-- the `Switch` on the left discriminant: one branch per variant, default
+    `false`; an uninhabited variant returns `true` -/
+def eqVariant (le : LeafKind → List Nat → List Nat → Bool) (m : Mem) : Vars → Nat → Nat → Nat → Bool
+  | .nil, _, _, _ => false
+  | .cons v _, 0, a, b =>
+    match collectLayouts v with
+    | none => true
+    | some _ => eqFields le m v variantStart a b
+  | .cons _ vs, k + 1, a, b => eqVariant le m vs k a b
+end
+
+mutual
+/-- structural equality of decoded values, leaves compared by `le`
+    (zero-sized leaves are equal) -/
+def veq (le : LeafKind → List Nat → List Nat → Bool) : V → V → Bool
+  | .unit, .unit => true
+  | .leaf k x, .leaf _ y => if x.length = 0 then true else le k x y
+  | .rec_ a, .rec_ b => vseq le a b
+  | .enm t a, .enm u b => if t = u then vseq le a b else false
+  | _, _ => false
+def vseq (le : LeafKind → List Nat → List Nat → Bool) : Vs → Vs → Bool
+  | .nil, .nil => true
+  | .cons a as, .cons b bs => veq le a b && vseq le as bs
+  | _, _ => false
+end
+
 end RotoV.Layout
